@@ -7,6 +7,7 @@ import re
 
 from ..cfg import cfg_of
 from ..core import AnalysisError, FuncInfo, call_name, const_value, dotted, unparse, walk_no_nested
+from ..pattern import body_is, find, find_expr, has, has_expr
 from ..report import Ctx
 
 #: write sites that do not take a fresh name from get_new_file_name: reason
@@ -72,38 +73,63 @@ def run(ctx: Ctx) -> None:
                 else f'{unparse(c.func)}({target}): the name does not come from a get_new_file_name call that precedes the write on every path - an existing file can be replaced', target)
     ctx.floor('C14.R1', 9)
     g = prog.func('filenames', 'get_new_file_name')
-    loops = [x for x in walk_no_nested(g.node) if isinstance(x, ast.While)]
-    ok = len(loops) == 1 and re.fullmatch(r'(\w+)\.is_file\(\)|os\.path\.(exists|isfile)\((\w+)\)|(\w+)\.exists\(\)', unparse(loops[0].test)) is not None
+    ok = any(body_is(g.body, f"""
+_FN = name + '.' + ext
+_F = Path(_FN)
+_N = __ZERO
+while {test}:
+    _FN = __CANDIDATE
+    _F = Path(_FN)
+    _N += 1
+return _FN
+""") is not None for test in ('_F.is_file()', '_F.exists()', 'os.path.exists(_FN)', 'os.path.isfile(_FN)'))
     if ok:
-        body = unparse(loops[0])
-        ok = 'number += 1' in body and '{number' in body
-        rets = [x for x in walk_no_nested(g.node) if isinstance(x, ast.Return)]
-        cfg = cfg_of(g.node)
-        ok = ok and len(rets) == 1 and cfg.dominates(cfg.node_of(loops[0]), cfg.node_of(rets[0]))
+        loop = next(x for x in walk_no_nested(g.node) if isinstance(x, ast.While))
+        cand = loop.body[0].value
+        counter = unparse(loop.body[-1].target)
+        names = {x.id for x in ast.walk(cand) if isinstance(x, ast.Name)}
+        ok = {'name', 'ext', counter} <= names
     ctx.add('C14.R1', 'get_new_file_name', ok, g, 'a candidate name is returned only when no file of that name exists; candidates are numbered' if ok else 'get_new_file_name no longer loops until the name is free', 'loop')
 
     BR = prog.cls('results', 'bioResults')
     gp = BR.methods['get_estimated_parameters']
-    loops = [x for x in walk_no_nested(gp.node) if isinstance(x, ast.For) and 'table.loc' in unparse(x)]
-    ok = len(loops) == 1 and unparse(loops[0].iter) == 'self.data.betas' and not any(isinstance(x, (ast.Continue, ast.Break)) for x in ast.walk(loops[0]))
+    b = find(gp.node, """
+_T = pd.DataFrame(columns=__COLS)
+for _B in self.data.betas:
+    ___
+    _T.loc[_B.name] = pd.Series(__ROW)
+return _T
+""")
+    ok = b is not None
     if ok:
-        store = [x for x in ast.walk(loops[0]) if isinstance(x, ast.Assign) and unparse(x.targets[0]).startswith('table.loc[')]
-        ok = len(store) == 1 and store[0] in loops[0].body and unparse(store[0].targets[0]) == 'table.loc[b.name]'
+        loops = [x for x in walk_no_nested(gp.node) if isinstance(x, ast.For) and unparse(x.iter) == 'self.data.betas' and unparse(x.target) == b['_B'] and any(unparse(st).startswith(b['_T'] + '.loc[') for st in x.body)]
+        ok = len(loops) == 1 and not any(isinstance(x, (ast.Continue, ast.Break, ast.Return)) for x in ast.walk(loops[0]))
+        store = [x for x in ast.walk(loops[0]) if isinstance(x, ast.Assign) and unparse(x.targets[0]).startswith(b['_T'] + '.loc[')] if ok else []
+        ok = ok and len(store) == 1 and store[0] in loops[0].body
     ctx.add('C14.R2', 'get_estimated_parameters', ok, gp, 'one row per element of data.betas, unconditionally' if ok else 'rows of the parameter table are filtered or keyed differently', 'rows')
     h = BR.methods['get_html']
-    txt = unparse(h.node)
-    ok = 'table = self.get_estimated_parameters(only_robust)' in txt and 'for name, values in table.iterrows():' in txt
+    ok = has(h.node, """
+_T = self.get_estimated_parameters(only_robust)
+___
+for _N, _V in _T.iterrows():
+    ___
+""")
     ctx.add('C14.R2', 'get_html', ok, h, 'the HTML report iterates all rows of the parameter table' if ok else 'get_html no longer iterates the parameter table', 'html')
     l = BR.methods['get_latex']
-    txt = unparse(l.node)
-    ok = 'table = self.get_estimated_parameters(only_robust)' in txt and ('table.style.format(formatting).to_latex()' in txt or 'table.to_latex(' in txt)
+    b = find(l.node, "_T = self.get_estimated_parameters(only_robust)")
+    ok = b is not None and (has_expr(l.node, f'{b["_T"]}.style.format(__F).to_latex()') or has_expr(l.node, f'{b["_T"]}.to_latex(float_format=__F)') or has_expr(l.node, f'{b["_T"]}.to_latex()'))
     ctx.add('C14.R2', 'get_latex', ok, l, 'the LaTeX report renders the whole parameter table' if ok else 'get_latex no longer renders the parameter table', 'latex')
     f12 = BR.methods['get_f12']
-    txt = unparse(f12.node)
-    ok = 'table = self.get_estimated_parameters(only_robust=False)' in txt and 'coef_names = table.index.to_list()' in txt and 'for name in coef_names:' in txt
+    ok = has(f12.node, """
+_T = self.get_estimated_parameters(only_robust=False)
+_NAMES = _T.index.to_list()
+for _N in _NAMES:
+    _V = _T.loc[_N]
+    ___
+""")
     ctx.add('C14.R2', 'get_f12', ok, f12, 'the F12 report iterates all rows of the parameter table' if ok else 'get_f12 no longer iterates all parameters', 'f12')
     s = BR.methods['__str__']
-    ok = "'\\n'.join([f'{b}' for b in self.data.betas])" in unparse(s.node)
+    ok = has_expr(s.node, "'\\n'.join([f'{_B}' for _B in self.data.betas])") or has_expr(s.node, "'\\n'.join((f'{_B}' for _B in self.data.betas))")
     ctx.add('C14.R2', 'bioResults.__str__', ok, s, 'the printed form joins all parameters' if ok else '__str__ no longer lists all parameters', 'str')
 
     init = BR.methods['__init__']
@@ -126,26 +152,63 @@ def run(ctx: Ctx) -> None:
     tvals, fvals = const_tuple(T), const_tuple(F)
     P = prog.cls('parameters', 'Parameters')
     gd = P.methods['generate_document']
-    txt = unparse(gd.node)
-    m = re.search(r"if isinstance\(parameter\.value, bool\):\n\s+value = '(\w+)' if parameter\.value else '(\w+)'\n\s+else:\n\s+value = parameter\.value", txt)
-    ok = m is not None and m.group(1) in tvals and m.group(2) in fvals
+    b = find(gd.node, """
+for _P in self.all_parameters_dict.values():
+    if isinstance(_P.value, bool):
+        _V = __T if _P.value else __F
+    else:
+        _V = _P.value
+    _TABLES[_P.section].add(_P.name, _V)
+    ___
+""")
+    ok = False
+    m = None
+    if b is not None:
+        try:
+            tv, fv = const_value(b['__T'][1]), const_value(b['__F'][1])
+            ok = tv in tvals and fv in fvals
+
+            class _M:
+                def group(self, i):
+                    return (tv, fv)[i - 1]
+
+            m = _M()
+        except ValueError:
+            ok = False
     ctx.add('C14.R4', 'Parameters.generate_document', ok, gd, f"booleans are written as '{m.group(1)}'/'{m.group(2)}', members of TRUE_STR/FALSE_STR; other values unchanged" if ok else 'coding of booleans in the parameter file changed', 'gen')
     pb = prog.func('parameters', 'parse_boolean')
-    txt = unparse(pb.node)
-    ok = 'if value in TRUE_STR:\n        return True' in txt and 'if value in FALSE_STR:\n        return False' in txt
+    ok = has(pb.node, '''
+if value in TRUE_STR:
+    return True
+''') and has(pb.node, '''
+if value in FALSE_STR:
+    return False
+''')
     ctx.add('C14.R4', 'parse_boolean', ok, pb, 'TRUE_STR -> True, FALSE_STR -> False' if ok else 'parse_boolean changed', 'parse')
     im = P.methods['import_document']
-    chain = [x for x in walk_no_nested(im.node) if isinstance(x, ast.If) and any(isinstance(y, ast.Assign) and unparse(y.targets[0]) == 'value' for y in x.body)]
+    b = find(im.node, """
+for _SN, _ENTRIES in self.document.items():
+    for _EN, _EV in _ENTRIES.items():
+        ___
+        _DEF = self.all_parameters_dict.get(__KEY)
+        ___
+        if __MISSING:
+            _VAL = _DEF.value
+        elif _DEF.type is bool:
+            try:
+                _VAL = parse_boolean(_EV)
+            except __EXC as _ERR:
+                ___
+        else:
+            _VAL = _EV
+        _PT = ParameterTuple(name=_EN, value=_VAL, type=_DEF.type, section=_SN, description=_DEF.description, check=_DEF.check)
+        self.add_parameter(_PT)
+""")
     ok = False
-    det = ''
-    if chain:
-        top = min(chain, key=lambda x: x.lineno)
-        det = unparse(top.test)
-        ok1 = unparse(top.test) == 'entry_value is None' and [unparse(y) for y in top.body] == ['value = default.value']
-        second = top.orelse[0] if top.orelse and isinstance(top.orelse[0], ast.If) else None
-        ok2 = second is not None and unparse(second.test) == 'default.type is bool' and 'value = parse_boolean(entry_value)' in unparse(second)
-        ok3 = second is not None and [unparse(y) for y in second.orelse] == ['value = entry_value']
-        ok = ok1 and ok2 and ok3
+    det = 'the chain missing -> default / bool -> parse_boolean / else -> as read was restructured'
+    if b is not None:
+        det = unparse(b['__MISSING'][1]).replace(b['_EV'], 'entry_value')
+        ok = det == 'entry_value is None'
     ctx.add('C14.R4', 'Parameters.import_document', ok, im, 'missing -> default; bool -> parse_boolean; anything else is kept as read' if ok else f'values read from the file are filtered by `{det}`: an admissible value (0, 0.0, empty string) may be replaced by the default', det)
     ap = prog.func('default_parameters', 'all_parameters_tuple')
     npar = 0
